@@ -140,9 +140,19 @@ func errorResultIsNonNil(g *Fn, r *ast.ReturnStmt, e ast.Expr, fs *FactSet) bool
 		}
 	}
 	if call, idx, ok := fs.BindingOf(e); ok {
-		return fs.Has(func(fa *Fact) bool { return fa.Kind == FCallFail && fa.Call == call && fa.Idx == idx })
+		if fs.Has(func(fa *Fact) bool { return fa.Kind == FCallFail && fa.Call == call && fa.Idx == idx }) {
+			return true
+		}
 	}
-	return false
+	// tested non-nil on every path here (e.g. a field: if ret.err != nil { return nil, ret.err })
+	want := types_ExprString(e)
+	return fs.Cmp(func(x, tag ast.Expr, truth bool, fa *Fact) bool {
+		be, ok := x.(*ast.BinaryExpr)
+		if !ok || tag != nil || (be.Op != token.NEQ && be.Op != token.EQL) || !isNilIdent(g.Info, be.Y) {
+			return false
+		}
+		return types_ExprString(be.X) == want && (be.Op == token.NEQ) == truth
+	})
 }
 
 // namedErrResult returns the named error result variable of g (nil if none).
